@@ -1,22 +1,23 @@
 CONSTANTS
+  UnreadableContinues <- AsBuilt
+  BootTrustsConfig <- AsBuilt
   Keys <- K2
   Configured <- ConfA
   Tag <- Tag2
   RevTag <- Rev2
+  DaySteps <- Days1
+  ReadFaultKinds <- RF_unreadable
   Delta = 10
-  DaySteps <- Days2
   AgeCap = 91
   MaxRefresh = 2
   MaxRestarts = 0
-  MaxWriteFaults = 1
-  MaxReadFaults = 0
-  ReadFaultKinds <- RF_tomb
+  MaxWriteFaults = 0
+  MaxReadFaults = 1
   AllowSoleRecordLoss = FALSE
   AllowIntraSetCollision = FALSE
   AllowContinueAfterVolatile = TRUE
   RelevantSignersOnly = TRUE
 SPECIFICATION Spec
 VIEW View
-INVARIANTS TypeOK TrustOnlyByRFC RevokedNeverAgain RevokedNeverAtFetch UnreadableAborts
-PROPERTIES UnauthenticatedChangesNothing RevokedOnlyRevokes FailClosed MissingKeepsTrust ReappearRestores PublishedFromState
+INVARIANTS UnreadableAborts
 CHECK_DEADLOCK FALSE
